@@ -426,7 +426,12 @@ struct MaterialData {
 
     #[br(count = file_header.additional_data_size)]
     #[br(pad_size_to = 4)]
-    #[br(map = |x: Vec<u8>| u32::from_le_bytes(x[0..4].try_into().unwrap()))]
+    #[br(map = |x: Vec<u8>| {
+        let mut flags = [0u8; 4];
+        let len = x.len().min(4);
+        flags[..len].copy_from_slice(&x[..len]);
+        u32::from_le_bytes(flags)
+    })]
     table_flags: u32,
 
     #[br(calc = (table_flags & 0x4) != 0)]
